@@ -86,6 +86,12 @@ impl Model {
             Format::Fastq => m_fq(input),
         }
     }
+    pub fn build_lenient(format: Format, input: &[u8]) -> Model {
+        match format {
+            Format::Fasta => m_fa(input),
+            Format::Fastq => m_fq_opt(input, true),
+        }
+    }
 }
 
 fn pieces(input: &[u8]) -> Vec<(usize, &[u8])> {
@@ -162,6 +168,13 @@ fn err_id(header_piece: &[u8]) -> Option<String> {
 }
 
 pub fn m_fq(input: &[u8]) -> Model {
+    m_fq_opt(input, false)
+}
+
+/// `lenient`: groups outside the claimed domain (sequence and quality line with different
+/// terminators) are accepted as records whatever their lengths, so the record list is the most
+/// permissive notion of "a record of the input" (used by C06 only).
+pub fn m_fq_opt(input: &[u8], lenient: bool) -> Model {
     let ps = pieces(input);
     let n = ps.len();
     let mut recs = Vec::new();
@@ -213,11 +226,11 @@ pub fn m_fq(input: &[u8]) -> Model {
         let qual_crlf = q.last() == Some(&b'\r');
         // (unterminated quality line without CR counts as either; with CR it counts as CRLF)
         let in_domain = if q_terminated { seq_crlf == qual_crlf } else { !qual_crlf || seq_crlf };
-        if !in_domain {
+        if !in_domain && !lenient {
             return done(recs, Terminal::Unspecified);
         }
         let (tseq, tqual) = (trim_cr(sq), trim_cr(q));
-        if tseq.len() != tqual.len() {
+        if in_domain && tseq.len() != tqual.len() {
             return done(
                 recs,
                 Terminal::Err(NErr::UnequalLengths {
